@@ -50,6 +50,13 @@ ImplBack ==
 (* the real reader accepted the file this line stands in (logged on the first line of a file) *)
 ImplFileRead == AtEnd => E.fs = "ok"
 
+(* a zero that was written is read back as a zero that is THERE (bk[i].ok) *)
+ImplZerosKept ==
+  AtEnd /\ E.bk # <<>> =>
+    LET nums == NumItems(Fmt) IN
+    \A i \in 1..Len(nums) : IsZeroAt(E.vs[i], DecimalsOf(nums[i])) => i <= Len(E.bk) /\ E.bk[i].ok /\ E.bk[i].v.m = 0
+ImplZerosWritten == AtEnd => ZerosKept(Fmt, E.vs, E.tx)
+
 ConformsRepairedText == AtEnd => E.tx = text
 ConformsPinnedText == AtEnd => E.tx = Render(Pinned[E.lk], E.vs, E.tg)
 (* the text is what one of the two tables renders (they differ in FS2_row and FC_row only) *)
